@@ -290,6 +290,17 @@ def run(repo: Repo, rep: Report, tier: str) -> None:
                         hit = n.func.value.attr
                     if hit and hit not in rebound:
                         mut_globals.append((mm, n, f"{k.name}.{hit} (class attribute)"))
+    # default parameter values are evaluated once per process: an object built there (an optimizer pass, a list, a dict) is shared by every call
+    n_defaults = 0
+    for f in repo.all_funcs():
+        a_ = f.node.args
+        for dflt in list(a_.defaults) + [k_ for k_ in a_.kw_defaults if k_ is not None]:
+            n_defaults += 1
+            built = isinstance(dflt, (ast.List, ast.Dict, ast.Set)) or any(isinstance(x, ast.Call) for x in ast.walk(dflt))
+            if built:
+                rep.bad("C19-R3", f"{f.short}: default value `{norm(dflt)[:60]}` is built once per process", "an object constructed in a default value is shared by all calls: "
+                        "state it accumulates in one compilation (replacement tables, dead-node sets, caches) is still there in the next", f.loc(dflt))
+    rep.analysed["C19-R3:default parameter values inspected"] = n_defaults
     for f, n, name in mut_globals:
         rep.bad("C19-R3", f"{f.short} mutates module-level `{name}`", "module-level mutable state survives across compilations", f.loc(n))
     rep.ok("C19-R3", "no module-level mutable is mutated by compiler functions", f"{len(mut_globals)} mutation sites", "", nontrivial=False) if not mut_globals else None
